@@ -109,6 +109,31 @@ fn scen(_spec: RunSpec) -> ScenFut {
             plans.push(qs);
         }
         sim::log(format!("CONFIG catalog={} chunks={n_chunks} tasks={n_tasks} distinct_windows={}", if use_local { "local" } else { "object-store" }, windows_used.len()));
+        // a third of the runs also have clients that go away: their queries (other windows than the observed ones as
+        // often as not) are dropped at a seeded await point, e.g. between binding the table and planning
+        let doomed: Vec<(String, u32)> = if sim::w(3) == 2 {
+            let all_q: Vec<String> = plans.iter().flatten().filter(|q| !q.starts_with("STREAM ")).cloned().collect();
+            (0..sim::w_range(1, 3)).filter_map(|_| if all_q.is_empty() { None } else { Some((all_q[sim::w(all_q.len() as u32) as usize].clone(), sim::w(8))) }).collect()
+        } else {
+            Vec::new()
+        };
+        for (sql, k) in doomed {
+            let qn = qn.clone();
+            let h = tokio::spawn(async move {
+                sim::yield_point(0, "doomed client before query").await;
+                let _ = qn.query(&sql).await;
+            });
+            let ab = h.abort_handle();
+            tokio::spawn(async move {
+                for _ in 0..k {
+                    sim::yield_point(0, "client about to go away").await;
+                }
+                if !ab.is_finished() {
+                    sim::fault_fired("query_request_dropped");
+                    ab.abort();
+                }
+            });
+        }
         let inflight = Arc::new(std::sync::atomic::AtomicUsize::new(0));
         let overlapped = Arc::new(std::sync::atomic::AtomicBool::new(false));
         let mut hs = Vec::new();
